@@ -53,3 +53,12 @@ package store
 //@   ensures  forall k node.Key :: __in(other, k) && (!old(__in(SpecIState[s].Nodes, k)) || other[k].Heartbeat.OlderThan(old(SpecIState[s].Nodes[k]).Heartbeat)) ==> SpecIState[s].Nodes[k] == other[k]
 //@   ensures  forall k node.Key :: old(__in(SpecIState[s].Nodes, k)) && !(__in(other, k) && other[k].Heartbeat.OlderThan(old(SpecIState[s].Nodes[k]).Heartbeat)) ==> SpecIState[s].Nodes[k] == old(SpecIState[s].Nodes[k])
 //@   modifies SpecIState
+
+//@ # ---- atomicity of the read-modify-write operations (C12 over schedules): the gossip loop and
+//@ # the gossip server's handlers call Merge/SetNode/... concurrently; a CopyState ... SetState
+//@ # sequence that is not serialized overwrites what another one set in between with its older
+//@ # snapshot. Every read-for-write and every write of the state inside this package therefore
+//@ # happens with core.mu held (PeekState readers see one consistent state and need no lock).
+//@ requires_held core.CopyState mu W
+//@ requires_held core.SetState mu W
+//@ unshared New the store is built before it is published
